@@ -46,13 +46,8 @@ class WebSocketCodec(BaseComponent):
         self._close_received = False
         self._close_sent = False
         self._buffer = bytearray()
-
-        messages = self._parse_messages(bytearray(data))
-        for message in messages:
-            if self._sock is not None:
-                self.fire(read(self._sock, message))
-            else:
-                self.fire(read(message))
+        # decoded once registered: answers (pong) go to the parent's channel
+        self._initial_data = bytearray(data)
 
     @handler('registered')
     def _on_registered(self, component, parent):
@@ -83,6 +78,13 @@ class WebSocketCodec(BaseComponent):
                 self.unregister()
 
             self.addHandler(_on_disconnect)
+
+            data, self._initial_data = self._initial_data, bytearray()
+            for message in self._parse_messages(data):
+                if self._sock is not None:
+                    self.fire(read(self._sock, message))
+                else:
+                    self.fire(read(message))
 
     def _parse_messages(self, data):
         msgs = []  # one chunk of bytes may result in several messages
